@@ -40,15 +40,6 @@ Proof.
     rewrite (IH (fun a q a' Hq => H a q a' (or_intror Hq)) a1 a' E), (H a p a1 (or_introl eq_refl) E1). ring.
 Qed.
 
-Lemma dinv_b_dinv : forall d, dinv_b d = true -> dinv d.
-Proof.
-  intros d H. unfold dinv_b in H. apply andb_prop in H. destruct H as [H N]. rewrite forallb_forall in H.
-  split; [| |exact N].
-  - intros p Hp. specialize (H p Hp). apply andb_prop in H. destruct H as [H _]. apply andb_prop in H. tauto.
-  - intros p Hp. specialize (H p Hp). apply andb_prop in H. destruct H as [H Z]. apply andb_prop in H. destruct H as [_ X].
-    split; [exact X|]. destruct (num_is_zero (snd p)); [discriminate Z | reflexivity].
-Qed.
-
 Lemma powz_one_exp : forall x : qi, qi_eq (qi_powz x 1) x.
 Proof. intros x. unfold qi_powz. change (Pos.to_nat 1) with 1%nat. cbn [qi_pow_nat]. ring. Qed.
 
